@@ -14,6 +14,8 @@ CLAIMED={
  "C03":("Bounded symbolic model checking: child-axis steps with a positional first predicate (and optional boolean predicate) and (E)[n] forms run symbolically over a symbolic document; per path z3 decides equality with the reference proximity-position semantics.",TECH),
  "C04":("Inductive frame condition + bounded differential on the real code: a frame monitor inside the symbolic executor shows that one Select/Evaluate call (symbolic document, context, abandoned after a symbolic number of results) makes no value-changing store to state reachable from the compiled expression or package globals (covers histories of any length), and after a symbolic history of 1-2 calls the expression observes what a fresh compile observes.","concolic symbolic execution of go/ssa with a shared-store (frame) monitor; one-step inductive frame condition + two-run differential per path, paths enumerated by SMT (z3)"),
  "C05":("Non-interference as sufficient condition, checked on the real code by symbolic execution: one Select/Evaluate call performs no store at all to shared state outside a sync lock, so every interleaving equals a sequential run; feasible witnesses are replayed from 4 goroutines under go test -race and only a reported race / differing result is a violation. Interleavings themselves are not explored.","concolic symbolic execution of go/ssa with shared-store + lockset monitor (non-interference); witnesses replayed under the race detector"),
+ "C07":("Bounded symbolic model checking of comparison and boolean operators: L op R over all claimed operand-type combinations with symbolic doubles (incl. NaN, infinities, signed zeros), symbolic string bytes and node-sets over a symbolic document; per path z3 (FP+BV) decides result = XPath reference, and any panic leaving the comparison is a violation.","concolic symbolic execution of go/ssa + SMT (z3, FloatingPoint+BitVec) value obligation per path vs reference XPath semantics"),
+ "C08":("Bounded symbolic model checking of arithmetic: expression trees over + - * div, unary minus, mod (stated domain), floor, ceiling, number(), count(), sum(), string-length(), string() with symbolic IEEE doubles and a symbolic document; per path z3 decides that the returned float64 is bit-for-bit the reference double (NaN class identified), and string() of NaN / integers below 10^6 is the plain decimal text.","concolic symbolic execution of go/ssa + SMT (z3, FloatingPoint+BitVec) value obligation per path vs reference XPath semantics"),
  "C11":("Bounded symbolic model checking: unions and sequence steps over all axes run symbolically over a symbolic document; per path z3 decides set equality with the reference union and the harness asserts each node once. An identity kernel runs the same code with element names / text values as free byte strings (FNV abstracted to equality of key bytes), so two different nodes sharing a key is found by the solver.",TECH),
  "C12":("Bounded symbolic model checking of iterator protocol and sequence relations: Select / Evaluate / count() / reverse() and a symbolic number of extra MoveNext calls on fresh compiles over one symbolic document; relations asserted on every explored path, set part decided by z3 against the reference.","concolic symbolic execution of go/ssa; sequence relations asserted per explored path, set obligation by SMT (z3)"),
  "C13":("Bounded symbolic model checking of metamorphic relations (absolute paths ignore the start node; relative paths compose with /node()[k]... addresses; P[true()], (P), P|P, not(not(P))): two real engine runs per symbolic path, relation asserted on every path, paths enumerated by z3.","concolic symbolic execution of go/ssa with SMT-decided path exploration; metamorphic relation asserted per path"),
